@@ -5901,9 +5901,12 @@ class PyCdlib:
         if signature != b'\xfb\xc0\x78\x70':
             raise pycdlibexception.PyCdlibInvalidInput('Invalid signature on boot file for iso hybrid')
 
-        self.isohybrid_mbr = isohybrid.IsoHybrid()
-        self.isohybrid_mbr.new(efi, mac, part_entry, mbr_id, part_offset,
-                               geometry_sectors, geometry_heads, part_type)
+        # Only a completely initialized object is attached, so that a refused
+        # request leaves the ISO as it was.
+        isohybrid_mbr = isohybrid.IsoHybrid()
+        isohybrid_mbr.new(efi, mac, part_entry, mbr_id, part_offset,
+                          geometry_sectors, geometry_heads, part_type)
+        self.isohybrid_mbr = isohybrid_mbr
 
         # The MBR (and GPT/APM) hold the location of the boot files, which is
         # filled in when the extents are assigned.
